@@ -16,8 +16,15 @@ package corr
 //   tick dt=<ns>                              advance the clock by dt, then deliver one tick
 //   unbind ssrc=<u32>                         UnbindLocalStream
 // output: per tick, one line per stream sorted by SSRC: `sr ssrc= ntp= rtp= pc= oc=`.
+//
+// The ambient of a case (first op `amb …`, ambient_test.go): the interceptor sits in a chain with transparent, silent
+// neighbours, and the RTP writer below it refuses chosen calls (`failrtp=`).  On the unchanged code a packet is
+// counted when it is handed to the interceptor, whatever the transport below answers (sender_interceptor.go:
+// processRTP runs before writer.Write and nothing is taken back), so the model has nothing to learn about failures;
+// the error is returned to the caller, who goes on writing.
 
 import (
+	"errors"
 	"fmt"
 	"sort"
 	"sync"
@@ -101,6 +108,7 @@ func c07Run(t *testing.T, ops []string, o *Out) {
 					if err != nil {
 						panic(err)
 					}
+					icpt = o.Wrap(icpt) // the case's ambient: transparent, silent neighbours (ambient_test.go)
 					icpt.BindRTCPWriter(interceptor.RTCPWriterFunc(func(pkts []rtcp.Packet, _ interceptor.Attributes) (int, error) {
 						mu.Lock()
 						defer mu.Unlock()
@@ -119,7 +127,7 @@ func c07Run(t *testing.T, ops []string, o *Out) {
 				ssrc := uint32(atoi(m["ssrc"]))
 				writers[ssrc] = icpt.BindLocalStream(
 					&interceptor.StreamInfo{SSRC: ssrc, ClockRate: uint32(atoi(m["rate"]))},
-					interceptor.RTPWriterFunc(func(*rtp.Header, []byte, interceptor.Attributes) (int, error) { return 0, nil }))
+					interceptor.RTPWriterFunc(func(*rtp.Header, []byte, interceptor.Attributes) (int, error) { return 0, o.RTPWriteErr() }))
 			case name == "write" && need("ssrc", "seq", "ts", "len", "dt"):
 				w, ok := writers[uint32(atoi(m["ssrc"]))]
 				if !ok {
@@ -129,14 +137,14 @@ func c07Run(t *testing.T, ops []string, o *Out) {
 				c07Sleep(atoi(m["dt"]))
 				h := &rtp.Header{Version: 2, SequenceNumber: uint16(atoi(m["seq"])), Timestamp: uint32(atoi(m["ts"])), SSRC: uint32(atoi(m["ssrc"]))}
 				payload := make([]byte, atoi(m["len"]))
-				if _, err := w.Write(h, payload, interceptor.Attributes{}); err != nil {
+				if _, err := w.Write(h, payload, interceptor.Attributes{}); err != nil && !errors.Is(err, errAmbWrite) {
 					panic(err)
 				}
 				// rep=N: N further packets of the same frame (same timestamp, same instant, consecutive numbers) — long
 				// streams make the 32-bit packet and octet counters wrap
 				for i := 0; i < atoi(m["rep"]) && m["rep"] != ""; i++ {
 					h.SequenceNumber++
-					if _, err := w.Write(h, payload, interceptor.Attributes{}); err != nil {
+					if _, err := w.Write(h, payload, interceptor.Attributes{}); err != nil && !errors.Is(err, errAmbWrite) {
 						panic(err)
 					}
 				}
@@ -162,10 +170,60 @@ func c07Run(t *testing.T, ops []string, o *Out) {
 	})
 }
 
+// c07FailSched draws the calls of the RTP writer below the interceptor that fail: the first, one, two in a row,
+// scattered ones, every k-th, all.
+func c07FailSched(r *Rng) string {
+	a := r.Range(1, 8)
+	switch r.Intn(7) {
+	case 0:
+		return "failrtp=1"
+	case 1:
+		return fmt.Sprintf("failrtp=%d", a)
+	case 2:
+		return fmt.Sprintf("failrtp=%d,%d", a, a+1)
+	case 3:
+		return fmt.Sprintf("failrtp=1,%d,%d", a+r.Range(1, 4), a+r.Range(5, 20))
+	case 4:
+		return fmt.Sprintf("failrtp=%%%d", r.Range(2, 5))
+	case 5:
+		return fmt.Sprintf("failrtp=1,2,%%%d", r.Range(3, 7))
+	}
+	return "failrtp=%1"
+}
+
+// c07Ambient: a chain with neighbours that neither write SenderReports nor touch the counted packets (the stats
+// interceptor, the NACK responder — the streams negotiate no NACK —, the TWCC header-extension interceptor — no
+// extension negotiated —, packetdump to io.Discard, a NoOp) and, for `fail`, an RTP writer that refuses some calls.
+func c07Ambient(r *Rng, ops []string, fail bool) []string {
+	pick := func(xs ...string) string { return xs[r.Intn(len(xs))] }
+	amb := ambOp(pick("", "", "stats", "noop", "dumps", "resp,stats", "hdr"), pick("", "", "stats", "noop", "resp", "dumps"), r.Bool(), false, false, false)
+	if fail {
+		amb = ambWith(amb, c07FailSched(r))
+	}
+	return append([]string{amb}, ops...)
+}
+
 func c07Gen(r *Rng, tier string, idx int) Case {
+	cs := c07GenPlain(r, tier, idx)
+	switch {
+	case cs.Class == "writefail":
+		cs.Ops = c07Ambient(r, cs.Ops, true)
+	case cs.Class != "bigcount" && r.Chance(1, 4):
+		cs.Ops = c07Ambient(r, cs.Ops, r.Chance(1, 3))
+	case cs.Class == "bigcount" && r.Chance(1, 2):
+		cs.Ops = append([]string{ambWith(ambOp("", "", false, false, false, false), c07FailSched(r))}, cs.Ops...)
+	}
+	return cs
+}
+
+func c07GenPlain(r *Rng, tier string, idx int) Case {
 	classes := []string{"inorder", "seqwrap", "ooo", "frames", "tswrap", "ts0first", "payload", "rates",
-		"multi", "tickfirst", "rebind", "longgap", "mixed"}
-	cl := classes[idx%len(classes)]
+		"multi", "tickfirst", "rebind", "longgap", "mixed", "writefail"}
+	class := classes[idx%len(classes)]
+	cl := class
+	if cl == "writefail" { // traffic of one of the other classes over a transport that refuses some RTP writes
+		cl = classes[r.Intn(len(classes)-1)]
+	}
 	if idx%211 == 7 {
 		// counters beyond 2^32 octets: one long stream, reports before and after the wrap
 		n := r.Pick(2941758, 2941759, 2950000, 3100000)
@@ -271,7 +329,7 @@ func c07Gen(r *Rng, tier string, idx int) Case {
 		}
 	}
 	ops = append(ops, fmt.Sprintf("tick dt=%d", dts[r.Intn(len(dts))]))
-	return Case{Class: cl, Ops: ops}
+	return Case{Class: class, Ops: ops}
 }
 
 func init() {
@@ -280,7 +338,7 @@ func init() {
 			if tier == "thorough" {
 				return 100000
 			}
-			return 2600
+			return 2800
 		},
 		Gen: c07Gen,
 		Run: c07Run,
